@@ -129,7 +129,7 @@ func c09R2(c *Ctx, id string) {
 					switch x := in.(type) {
 					case *ssa.MapUpdate:
 						if pathOf(x.Map).Names() == "shared.allocs" || strings.HasSuffix(pathOf(x.Map).Names(), "allocs") {
-							if p, isP := x.Value.(*ssa.Parameter); isP && p.Name() == "txid" && dominates(x, r) {
+							if p, isP := x.Value.(*ssa.Parameter); isP && strings.HasSuffix(p.Type().String(), "common.Txid") && dominates(x, r) {
 								// key must be the returned id
 								if x.Key == r.Results[0] {
 									okAlloc = true
